@@ -91,7 +91,7 @@ peg::parser! {
 
       pub rule okuri_alpha() -> String = n:$(['a'..='z']) { n.to_string() }
       // 語幹の部分
-      pub rule stem() -> String = n:$([^ ';' | '/']+) { n.to_string() }
+      pub rule stem() -> String = n:$([^ ';' | '/' | ' ' | '\t']+) { n.to_string() }
       // 品詞部分
       rule fixed_okuri() -> Okuri = "(" n:$("-" (kana()+)) ++ "," ")" { Okuri::Fixed(n.first().unwrap()[1..].to_string()) }
       rule char_class() -> Okuri = "[" n:$(['a'..='z' | '>' | '<' | '#' | '*' | '-' | '(' | ')' | 'φ' | '.']+) "]" { Okuri::CharClass(n.to_string()) }
